@@ -13,9 +13,9 @@ cp $DEMO $OUT/$(basename $DEMO).txt
 {
 echo "== existing suite with the change"; go test -vet=off -count=1 -skip 'Demo|Vectorised|Muskingum' ./data/... ./util/... ./io/json/... 2>&1 | grep -E "^(ok|FAIL|---)" 
 echo "== demo WITH change (must fail)"; go test -vet=off -count=1 $EXTRA -run "$RUN" $PKG 2>&1 | tail -5
-git stash push -q -- $SRC
+git diff -- $SRC > /tmp/seedcheck.$$.patch; git apply -R /tmp/seedcheck.$$.patch
 echo "== demo WITHOUT change (must pass)"; go test -vet=off -count=1 $EXTRA -run "$RUN" $PKG 2>&1 | tail -3
-git stash pop -q
+git apply /tmp/seedcheck.$$.patch; rm -f /tmp/seedcheck.$$.patch
 } > $OUT/confirm.log 2>&1
 cat $OUT/confirm.log
 cd /verif
